@@ -16,6 +16,7 @@ const SNA_128K_PERSISTENT_BANK_0: u8 = 5;
 const SNA_128K_PERSISTENT_BANK_1: u8 = 2;
 const SNA_IFF2_BIT_MASK: u8 = 0x04;
 const SNA_INTERRUPT_MODE_MASK: u8 = 0x03;
+const SNA_INTERRUPT_MODE_MAX: u8 = 2;
 const SNA_BORDER_COLOR_MASK: u8 = 0x07;
 const SNA_128K_TAIL_BANKS: &[u8] = &[0, 1, 3, 4, 6, 7];
 const SNA_PAGINATED_PAGED_BANK_ADDRESS: u16 = 0xFFFF;
@@ -47,6 +48,11 @@ where
 
     let mut header = [0u8; SNA_HEADER_SIZE];
     asset.read_exact(&mut header)?;
+
+    let interrupt_mode = header[25] & SNA_INTERRUPT_MODE_MASK;
+    if interrupt_mode > SNA_INTERRUPT_MODE_MAX {
+        return Err(SnapshotLoadError::InvalidSNAFile.into());
+    }
 
     // SNA does not store halt, EI and prefix state, execution starts from the clean instruction
     emulator.cpu.reset_control_state();
@@ -111,7 +117,7 @@ where
         .regs
         .set_sp(u16::from_le_bytes([header[23], header[24]]));
     // interrupt mode
-    emulator.cpu.set_im(header[25] & SNA_INTERRUPT_MODE_MASK);
+    emulator.cpu.set_im(interrupt_mode);
     // Border color
     emulator
         .controller
